@@ -396,6 +396,12 @@ htp_status_t htp_connp_REQ_CONNECT_WAIT_RESPONSE(htp_connp_t *connp) {
         return HTP_DATA_OTHER;
     }
 
+    // An interim "100 Continue" is not the answer to the CONNECT; the final
+    // response, which follows it, is.
+    if ((connp->in_tx->response_status_number == 100) && (connp->in_tx->response_progress <= HTP_RESPONSE_HEADERS)) {
+        return HTP_DATA_OTHER;
+    }
+
     // A 2xx response means a tunnel was established. Anything
     // else means we continue to follow the HTTP stream.
     if ((connp->in_tx->response_status_number >= 200) && (connp->in_tx->response_status_number <= 299)) {
